@@ -1056,6 +1056,76 @@ func (g *gen) edits(r *hx.Rng, kind string, sd *suiteDef, signed map[string]inte
 	})
 	add("jwtmember", "model", func(d map[string]interface{}) bool { d["jwt"] = "abc"; return true })
 
+	// proof SETS made from the signed document by an attacker: a forged entry (a copy of a genuine entry naming another
+	// verification method, with another signature text) or an entry of another proof family is put after / before the
+	// genuine entries.  Every entry present must verify: none of these may be accepted with a verified proof.
+	entriesOf := func(d map[string]interface{}) []interface{} {
+		if a, isArr := d["proof"].([]interface{}); isArr {
+			return append([]interface{}{}, a...)
+		}
+
+		return []interface{}{d["proof"]}
+	}
+	forgedOf := func(d map[string]interface{}) map[string]interface{} {
+		es := entriesOf(d)
+
+		f, _ := clone(es[0]).(map[string]interface{})
+		if f == nil {
+			return nil
+		}
+
+		f["verificationMethod"] = "did:example:mallory#k0"
+
+		for _, h := range []string{"proofValue", "jws"} {
+			if t, isStr := f[h].(string); isStr && len(t) > 4 {
+				f[h] = t[:len(t)-3] + "AAA"
+			}
+		}
+
+		return f
+	}
+	foreignOf := func(d map[string]interface{}) map[string]interface{} {
+		// an entry of the other family: for a Data Integrity document the last linked-data proof seen, and the other way round
+		for k, v := range g.lastProof {
+			if m, isObj := v.(map[string]interface{}); isObj && (m["type"] == "DataIntegrityProof") != sd.di && k != "" {
+				f, _ := clone(m).(map[string]interface{})
+
+				return f
+			}
+		}
+
+		return nil
+	}
+
+	for _, where := range []string{"append", "prepend"} {
+		where := where
+
+		for _, what := range []string{"forged", "foreign"} {
+			what := what
+
+			add("proofset "+where+" "+what, "must-reject", func(d map[string]interface{}) bool {
+				var x map[string]interface{}
+				if what == "forged" {
+					x = forgedOf(d)
+				} else {
+					x = foreignOf(d)
+				}
+
+				if x == nil {
+					return false
+				}
+
+				if where == "append" {
+					d["proof"] = append(entriesOf(d), x)
+				} else {
+					d["proof"] = append([]interface{}{x}, entriesOf(d)...)
+				}
+
+				return true
+			})
+		}
+	}
+
 	// the proof of the previously signed document of the same suite
 	if prev, ok := g.lastProof[sd.name+reprName(sd.repr)]; ok {
 		add("prooftransplant", "must-reject", func(d map[string]interface{}) bool {
